@@ -340,7 +340,7 @@ pub fn run(run: &Run) {
         }
     });
     // Gram matrices of every point set
-    let gmax = run.tier.pick(5usize, 6usize);
+    let gmax = run.tier.pick(5usize, 8usize);
     run.bound("Gram point sets", format!("every subset of size 1..={} of the 8-point lattice (plus a 60-point dyadic grid in thorough) for all 150 kernels", gmax));
     let mut sets: Vec<Vec<f64>> = Vec::new();
     for sz in 1..=gmax {
